@@ -38,6 +38,8 @@ for d in sorted(glob.glob(os.path.join(HERE, 'seeded', 'C*_*'))):
     caught = [k for k, v in r.items() if v.get('caught')]
     missed = [k for k, v in r.items() if not v.get('caught')]
     cb = ', '.join(f'./check {k}' for k in caught) or ('**missed** by ' + ', '.join(missed) if missed else 'not run yet')
+    if str(m.get('status', '')).startswith('obsolete'):
+        cb = 'obsolete: ' + str(m['status'])[len('obsolete:'):].strip()[:120]
     out.append(f"| {name} — {title} | {name.split('_')[0]} | {needs} | {cb} |")
 tab2 = '\n'.join(out)
 
